@@ -3,6 +3,8 @@
 Body commands: set, incr, get, delete, and the other read-modify-writes of the transaction backend: expire (buffers the backend's
 current value and writes it back at commit) and set(exist=True|False) (decides on the key's presence); explicit `tx.commit()` /
 `tx.rollback()` on the Transaction object in the middle of a body (the body goes on: a body is a sequence of segments).
+Multi-key writes `cache.set_many` / `cache.delete_many` inside a transaction (`setm` / `delm`; = sequences of single-key writes: locks key by
+key through `_get_lock_key`, in serializable mode the global lock also when they are the first write).
 Nested blocks (`nin` .. `nout`), also inner blocks that are LEFT BY AN EXCEPTION WHICH THE ENCLOSING BODY CATCHES (`nin` .. `nfail`): nested
 blocks are flat, the failure of an inner block does not mark the transaction.  Block forms: context manager on an object of its own
 ("ctx"), a call of one decorated function shared by all tasks ("dec"), context manager on ONE context object shared by all tasks
@@ -113,6 +115,10 @@ def canon_outcome(out) -> str:
 def op_word(op) -> str:
     if op[0] == "expire":
         return f"expire:{op[1]}"          # the model has no TTLs
+    if op[0] == "setm":
+        return "setm:" + "+".join(f"{k}={v}" for k, v in op[1])
+    if op[0] == "delm":
+        return "delm:" + "+".join(str(k) for k in op[1])
     return ":".join(str(x) for x in op)
 
 
@@ -127,6 +133,19 @@ def case_lines(case, trace):
         lines.append(f"run {e[1]}" if e[0] == "run" else f"cancel {e[1]}" if e[0] == "cancel" else f"adv {e[1]}")
     lines.append("end")
     return lines
+
+
+def expand(ops):
+    """the multi-key writes as the sequences of single-key writes they are (Model/TxSched.lean Cmd.setMany / Cmd.deleteMany)"""
+    out = []
+    for op in ops:
+        if op[0] == "setm":
+            out += [["set", k, v] for k, v in op[1]]
+        elif op[0] == "delm":
+            out += [["del", k] for k in op[1]]
+        else:
+            out.append(op)
+    return out
 
 
 def handles_ok(ops, form) -> bool:
@@ -241,7 +260,8 @@ def commit_labels(dl, ov):
 def oracle(case, res):
     """-> (list of (statement, message), stats dict).  Uses only the programs, the observed per-step labels,
     store/lock snapshots, instants and outcomes."""
-    progs = case["programs"]
+    multi = {i for i, p in enumerate(case["programs"]) if any(op[0] in ("setm", "delm") for op in p["ops"])}
+    progs = [dict(p, ops=expand(p["ops"])) for p in case["programs"]]
     bad = []
     stats = {}
     before = {int(k): v for k, v in case["init"].items()}
@@ -541,6 +561,13 @@ def oracle(case, res):
             stats["plain_inside_tx_window"] = 1
         if any(op[0] == "nin" for op in progs[tid]["ops"]):
             stats["nested_block"] = 1
+        if tid in multi:
+            stats["multi_key_write_in_transaction"] = 1
+            first = next((op for op in case["programs"][tid]["ops"] if op[0] in ("set", "setx", "incr", "del", "expire", "setm", "delm")), None)
+            if first is not None and first[0] in ("setm", "delm") and any(l.startswith("set_lock:") for l in labs):
+                stats["first_write_of_a_locking_transaction_is_multi_key"] = 1
+                if progs[tid]["mode"] == "serializable" and len(commit) >= 2 and commit[1] - commit[0] > 1:
+                    stats["serializable_multi_key_commit_with_another_task_stepping_between_its_commands"] = 1
         if any(op[0] == "nfail" for op in progs[tid]["ops"]):
             # an inner block left by an exception that the enclosing body caught - did the body get that far, and did it return then?
             ops_t = progs[tid]["ops"]
@@ -586,6 +613,10 @@ def oracle(case, res):
 
 def exec_case(case):
     for i, p in enumerate(case["programs"]):
+        if p["kind"] != "tx" and any(op[0] in ("setm", "delm") for op in p["ops"]):
+            raise HarnessError(f"task {i} of {json.dumps(case)}: multi-key writes are for transactional tasks only")
+        if any(op[0] in ("setm", "delm") and not op[1] for op in p["ops"]):
+            raise HarnessError(f"task {i} of {json.dumps(case)}: empty multi-key write")
         if not handles_ok(p["ops"], p.get("form", "ctx") if p["kind"] == "tx" else "none"):
             raise HarnessError(f"task {i} of {json.dumps(case)} calls commit / rollback without a Transaction object at hand")
     try:
@@ -893,6 +924,35 @@ def exhaustive_families():
         fams.append((f"{mode}: CANCEL anywhere: two tasks inside the shared context object, a decorated call nested in one of them",
                      {0: 1}, [tx(mode, [["incr", 0, 1], ["set", 1, 5]], "obj", 40), tx(mode, [["nin", "dec"], ["incr", 0, 2], ["nout"]], "obj", 40)],
                      mode != "locked", 1))
+    for mode in ("fast", "locked", "serializable"):
+        # multi-key writes (cache.set_many / cache.delete_many inside a transaction) take their locks through the same `_get_lock_key` as
+        # every other write - in serializable mode the ONE global lock -, also when they are the transaction's first write: no other
+        # transaction's command falls between the backend commands of such a transaction's commit
+        fams.append((f"{mode}: a transaction whose only writes are delete_many + set_many (commit = delete_many, then set_many) against a "
+                     f"transaction setting the same two keys",
+                     {0: 1, 1: 1}, [tx(mode, [["delm", [0]], ["setm", [[1, 5]]]], "ctx", 40), tx(mode, [["set", 0, 7], ["set", 1, 7]], "dec", 40)], True))
+        fams.append((f"{mode}: set_many of two keys against set_many of the same keys in the opposite order (short timeout: a deadlock is "
+                     f"broken by LockedError), one of them reading a third key afterwards",
+                     {2: 3}, [tx(mode, [["setm", [[0, 5], [1, 5]]], ["get", 2]], "dec", 20), tx(mode, [["setm", [[1, 6], [0, 6]]]], "dec", 20)],
+                     mode != "locked"))
+        fams.append((f"{mode}: CANCEL anywhere: delete_many of two keys then set_many in a decorated call against a plain writer",
+                     {0: 1, 1: 2}, [tx(mode, [["delm", [0, 1]], ["setm", [[0, 3]]]], "dec", 40), plain([["set", 1, 8]])], True, 1))
+    for mode in ("fast", "locked", "serializable"):
+        # ONE shared context object entered THREE (and four) deep by one task: an exception raised in an inner block while other inner
+        # blocks of the same object are still open propagates through all of them - the caller sees it, nothing is committed
+        fams.append((f"{mode}: the shared context object entered three deep by its task, the innermost block raises, against an incrementing "
+                     f"block on the same object",
+                     {0: 1}, [tx(mode, [["set", 1, 5], ["nin", "obj"], ["incr", 0, 1], ["nin", "obj"], ["set", 2, 6], ["raise"], ["nout"], ["nout"]], "obj", 40),
+                              tx(mode, [["incr", 0, 2]], "obj", 40)], mode != "locked"))
+        fams.append((f"{mode}: the shared context object entered four deep: the innermost block fails and is caught, then the next one raises "
+                     f"a falsy exception, against a plain reader",
+                     {0: 1}, [tx(mode, [["nin", "obj"], ["nin", "obj"], ["nin", "obj"], ["set", 1, 5], ["nfail"], ["incr", 0, 1], ["raise", "falsy"],
+                                        ["nout"], ["nout"]], "obj", 40),
+                              plain([["get", 1], ["get", 0]])], True))
+        fams.append((f"{mode}: the shared context object entered twice inside a decorated call nested in a block on it; the innermost block "
+                     f"raises a non-Exception BaseException",
+                     {0: 1}, [tx(mode, [["nin", "dec"], ["nin", "obj"], ["nin", "obj"], ["incr", 0, 1], ["raise", "base"], ["nout"], ["nout"], ["nout"]], "obj", 40),
+                              tx(mode, [["incr", 0, 2]], "dec", 40)], mode != "locked"))
     fams.append(("locked: a body raising a BaseException that is not an Exception while holding two locks, against a waiting call",
                  {0: 1}, [tx("locked", [["incr", 0, 1], ["set", 1, 2], ["raise", "base"]], "ctx", 40), tx("locked", [["incr", 0, 2]], "dec", 40)], True))
     fams.append(("locked: opposite lock order with a short timeout (deadlock broken by LockedError)",
@@ -927,8 +987,14 @@ def gen_ops(rng, in_tx: bool, nmax: int, form: str = "ctx"):
             ops.append(["set", k, rng.randint(-2, 9)])
         elif r < 0.57:
             ops.append(["get", k])
-        elif r < 0.65:
+        elif r < 0.62:
             ops.append(["del", k])
+        elif r < 0.65:
+            if in_tx:
+                ks = rng.sample([0, 1, 2, 3], rng.randint(1, 3))
+                ops.append(["setm", [[kk, rng.randint(-2, 9)] for kk in ks]] if rng.random() < 0.6 else ["delm", ks])
+            else:
+                ops.append(["del", k])
         elif r < 0.70:
             ops.append(["expire", k] if rng.random() < 0.7 else ["expire", k, 7200])
         elif r < 0.75:
@@ -941,8 +1007,8 @@ def gen_ops(rng, in_tx: bool, nmax: int, form: str = "ctx"):
         elif r < 0.90:
             if in_tx and ("ctx" in stack or "obj" in stack):
                 ops.append(["commit"] if rng.random() < 0.6 else ["rollback"])
-        elif in_tx and r < 0.96 and len(stack) < 3:
-            ops.append(["nin", rng.choice(["ctx", "dec", "obj"])])
+        elif in_tx and r < 0.96 and len(stack) < (5 if "obj" in stack else 3):
+            ops.append(["nin", rng.choice(["obj", "obj", "obj", "dec"] if "obj" in stack else ["ctx", "dec", "obj"])])
             stack.append(ops[-1][1])
         elif in_tx and len(stack) > 1:
             ops.append(closer(rng))
@@ -958,7 +1024,7 @@ def gen_case(rng, ntasks_max: int, style: int):
     programs = []
     for i in range(n):
         if i > 0 and rng.random() < 0.2:
-            programs.append(plain([op for op in gen_ops(rng, False, 4) if op[0] not in ("nin", "nout", "nfail", "commit", "rollback")]))
+            programs.append(plain([op for op in gen_ops(rng, False, 4) if op[0] not in ("nin", "nout", "nfail", "commit", "rollback", "setm", "delm")]))
             continue
         mode = mode0 if uniform else rng.choice(["fast", "locked", "serializable"])
         to = to0 if uniform or rng.random() < 0.5 else rng.choice([20, 40, 400])
@@ -1091,7 +1157,7 @@ def run(chk: Check) -> int:
         exhaustive.append({"family": title, "schedules": count, "complete": complete})
 
     # 3. sampled programs x sampled schedules
-    n = chk.budget(2500, 40000)
+    n = chk.budget(2000, 40000)
     ntasks = 4
     i = 0
     while i < n and found < MAXFOUND:
@@ -1119,6 +1185,8 @@ def run(chk: Check) -> int:
                 "(Exception / non-Exception BaseException subclass defining __len__ / __bool__) leaving a decorated call / a context-manager block - "
                 "with buffered writes, holding locks, with a nested block -, an inner block (nested context-manager block / decorated call made inside "
                 "the transaction) left by an exception that the enclosing body caught, a body that returned and committed after that, "
+                "a multi-key write (set_many / delete_many) inside a transaction - as the first write of a locking transaction, and a serializable "
+                "transaction committing it with another task released between the commit's backend commands -, "
                 "two tasks inside ONE shared context object at once (one failing, the other committing; the object re-entered by its own task), "
                 "an explicit tx.commit() / tx.rollback() in the "
                 "middle of a body, a lock given back by it and taken again later in the same block, a block ended by an exception after an explicit "
@@ -1138,7 +1206,8 @@ def run(chk: Check) -> int:
                    "non-Exception BaseExceptions), exception classes whose __bool__ / __len__ raise (falsy exception objects ARE modelled and "
                    "exercised), more than one transaction block per task, TTL values (expire is modelled as what it does to "
                    "values; another task's command between the set_many commands of the TTL groups of one commit), non-integer values inside the block, "
-                   "the multi-key commands (set_many / delete_many / delete_match / get_many issued by a body - so another transaction's delete_match('*') "
+                   "the pattern / multi-key READ commands (delete_match / get_many / scan issued by a body; set_many and delete_many ARE in the grammar, for "
+                   "transactional tasks - so another transaction's delete_match('*') "
                    "removing :tx_lock: keys is not exercised), commands of one body running concurrently with each other (gather inside a block), "
                    "tasks spawned inside a block (they inherit the transaction through the copied context), an inner block's failure caught by the "
                    "body when it is LockedError or a cancellation (caught inner failures are the body's own exceptions of the four kinds), "
